@@ -30,6 +30,8 @@ def generate(repo, tag, force=False):
     outv = os.path.join(ROOT, "coq", "Gen", "IR%s.v" % tag)
     outj = os.path.join(ROOT, "_work", "gen", "ir_%s.json" % tag)
     key = tree_key(repo)
+    if tag != "Ref" and os.path.isdir(os.path.join(ROOT, "reference", "src")):
+        key = hashlib.sha256((key + tree_key(os.path.join(ROOT, "reference"))).encode()).hexdigest()[:20]
     cdir = os.path.join(ROOT, "_work", "gen", "cache")
     os.makedirs(cdir, exist_ok=True)
     cv, cj = os.path.join(cdir, "%s-%s.v" % (tag, key)), os.path.join(cdir, "%s-%s.json" % (tag, key))
@@ -65,8 +67,29 @@ def generate(repo, tag, force=False):
         bname = idx.records.get(t, {}).get("blockname", t)
         blocks.append((bname, t, ir, nif2ir._seq(tr.defaults(t))))
         cover[bname] = sorted(set(acc))
-    em = irgen.emit_file(outv, "source tree: %s" % repo, blocks)
-    info = {"key": key, "repo": repo, "blocks": [b[0] for b in blocks], "classes": [b[1] for b in blocks],
+    # ids of field names, locals and block types are shared with the reference tree's table, so that the
+    # two generated files can be compared structurally (C08)
+    seed = None
+    if tag != "Ref" and os.path.isdir(os.path.join(ROOT, "reference", "src")):
+        ref = generate(os.path.join(ROOT, "reference"), "Ref")
+        seed = irgen.Emitter()
+        seed.names = dict(ref["names"])
+        seed.locals = dict(ref["locals"])
+        order = {b: i for i, b in enumerate(ref["blocks"])}
+        nxt = len(order)
+        ids = []
+        for b in blocks:
+            if b[0] in order:
+                ids.append(order[b[0]])
+            else:
+                ids.append(nxt)
+                nxt += 1
+        blocks = [b + (i,) for b, i in zip(blocks, ids)]
+        blocks.sort(key=lambda b: b[4])
+    else:
+        blocks = [b + (i,) for i, b in enumerate(blocks)]
+    em = irgen.emit_file(outv, "source tree: %s" % repo, blocks, seed)
+    info = {"key": key, "repo": repo, "blocks": [b[0] for b in blocks], "classes": [b[1] for b in blocks], "ids": [b[4] for b in blocks],
             "names": em.names, "locals": em.locals, "opaque": {k: v for k, v in cover.items() if v},
             "translated": sum(1 for v in cover.values() if not v), "seconds": round(time.time() - t0, 1)}
     os.makedirs(os.path.dirname(outj), exist_ok=True)
